@@ -80,7 +80,16 @@ def make_session(role: str, state: str) -> t.Any:
     tpl = _TEMPLATES.get((role, state))
     if tpl is None:
         tpl = SS.new_session(role)
-        if state == "pending-output":
+        if state == "open-limited":
+            # a client whose search asked for at most one entry (what the server then sends is the server's business)
+            if role == "client":
+                tpl.search_request(size_limit=1, time_limit=1, controls=[L.PagedResultControl(False, 1, b"")])
+                tpl.extended_request("1.2")
+            else:
+                SS.apply_event(role, tpl, ("recv", "SearchReq-lim1", 1))
+                SS.apply_event(role, tpl, ("recv", "ExtReq", 2))
+            tpl.data_to_send()
+        elif state == "pending-output":
             # OPENED, operations outstanding, and accepted output the application has only partly drained
             if role == "client":
                 tpl.search_request()
@@ -242,6 +251,37 @@ def _work1(job: t.Tuple[t.Any, ...]) -> evid.Local:
         for bi, b in list(enumerate(_X["bases"]))[job[1] : job[1] + 1]:
             _run_input(loc, b, fam, ("server", "client"), ("fresh", "binding", "open-outstanding", "pending-output"), "splits", True, {"fam": fam, "base": bi})
             _run_input(loc, b + b, fam, ("server", "client"), ("open-outstanding", "pending-output"), "bytewise", True, {"fam": fam, "base": bi, "twice": True})
+    elif fam == "stream":
+        # long VALID streams in fixed-size reads that never end on a PDU boundary (tens of KiB consumed while a
+        # partial message is always pending), and single messages far larger than any buffer threshold
+        role = job[1]
+        one = (L.ExtendedRequest(3, [], "1.2", b"v" * 29) if role == "server" else L.SearchResultEntry(1, [], "cn=e", [L.PartialAttribute("a", [b"v" * 21])])).pack(K.OPTS)
+        data = one * 4000
+        for size in (1000, 333, 4096, 1460, 65536 + 7):
+            chunks = [data[p : p + size] for p in range(0, len(data), size)]
+            loc.add("transitions", len(chunks))
+            vs, outcome = feed(role, "open-outstanding", chunks, False)
+            if outcome != "ok:4000" and not vs:
+                vs = [(f"long-stream-outcome:{role}", f"4000 valid PDUs in {size}-octet reads: outcome {outcome}")]
+            for v in vs:
+                loc.violation(v[0], v[1] + f" [4000 PDUs of {len(one)} octets in reads of {size}]", {"role": role, "state": "open-outstanding", "stream": {"pdu": one.hex(), "count": 4000, "read": size}})
+        bigm = (L.ExtendedRequest(3, [], "1.2", b"v" * 400000) if role == "server" else L.SearchResultEntry(1, [], "cn=e", [L.PartialAttribute("jpegPhoto", [b"v" * 350000])])).pack(K.OPTS)
+        for size in (65536, 16384, 262144):
+            chunks = [bigm[p : p + size] for p in range(0, len(bigm), size)]
+            loc.add("transitions", len(chunks))
+            vs, outcome = feed(role, "open-outstanding", chunks, True)
+            if outcome != "ok:1" and not vs:
+                vs = [(f"large-message-outcome:{role}", f"a {len(bigm)}-octet message in {size}-octet reads: outcome {outcome}")]
+            for v in vs:
+                loc.violation(v[0], v[1], {"role": role, "state": "open-outstanding", "stream": {"big": len(bigm), "read": size}})
+        # a header announcing far more than will ever come: the session may wait or fail closed, nothing else
+        for hdr in (b"\x30\x84\x00\x06\x00\x00", b"\x30\x84\x7f\xff\xff\xff", b"\x30\x88" + b"\x00" * 3 + b"\x01" + b"\x00" * 4):
+            chunks = [hdr] + [b"\x04" * 65536] * 6
+            loc.add("transitions", len(chunks))
+            vs, outcome = feed(role, "fresh", chunks, True)
+            for v in vs:
+                loc.violation(v[0], v[1] + f" [header {hdr.hex()} then 384 KiB]", {"role": role, "state": "fresh", "stream": {"hdr": hdr.hex()}})
+        loc.add("states", 11)
     elif fam == "truncate":
         bi = job[1]
         b = _X["bases"][bi]
@@ -331,7 +371,7 @@ def run(ctx: evid.Ctx) -> None:
         if thorough:
             jobs.append(("node-pairs", bi))
     _X["known_all"] = set(ctx.known)
-    jobs += [("states", "client", 3 if thorough else 2), ("states", "server", 2 if thorough else 1)] + [("valid", i) for i in range(len(bases))]
+    jobs += [("states", "client", 3 if thorough else 2), ("states", "server", 2 if thorough else 1)] + [("valid", i) for i in range(len(bases))] + [("stream", "server"), ("stream", "client")]
     nstep = 1 if thorough else 25
     for tagb in (0xA2, 0xA0, 0xA1):
         for form in ("min", "84"):
@@ -374,6 +414,13 @@ def run(ctx: evid.Ctx) -> None:
 
 
 def replay(case: t.Dict[str, t.Any], key: t.Optional[str] = None) -> t.Tuple[bool, str]:
+    if "stream" in case:
+        loc = evid.Local()
+        _X.setdefault("bases", [m.pack(K.OPTS) for m in base_messages()])
+        _X.setdefault("thorough", False)
+        r = _work1(("stream", case["role"]))
+        hits = [e for k, e in r.viol.items() if key is None or k == key]
+        return (not hits), "\n".join("  " + e["what"] for e in hits) or "long streams and large messages are handled"
     if "history" in case:
         return SS.replay_history(case["role"], case["history"], case["K"], "C05", key)
     if case.get("chunks"):
